@@ -75,6 +75,14 @@ fn main() {
             for f in known.findings.iter().filter(|f| f.0 == prop.id()) {
                 println!("KNOWN-FINDING: property={} {} -- {}", prop.id(), f.1, f.2);
             }
+            // calibration of the exact arithmetic against rust_decimal: harness trouble, not a violation
+            let calib = match atsv::calibrate::run(seed ^ 0xca11b8a7e, if thorough { 400_000 } else { 40_000 }) {
+                Ok(c) => c,
+                Err(e) => {
+                    eprintln!("calibration failed (harness broken, not a property violation): {}", e);
+                    std::process::exit(2);
+                }
+            };
             let p = gen::profile(prop, thorough);
             let mut stats = Stats::default();
             let mut failure = if std::env::var("ATSV_NO_REPLAYS").is_ok() { None } else { driver::run_replays(prop, &known, &mut stats) };
@@ -112,6 +120,8 @@ fn main() {
                 "grid_points": grid,
                 "generated_cases_requested": cases,
                 "workers": workers,
+                "calibration_products_checked": calib.0,
+                "calibration_pro_rata_checked": calib.1,
                 "time_cap_reached_so_fewer_cases_ran": timed_out,
                 "profile": format!("{:?}", p),
             });
